@@ -25,7 +25,7 @@ CONSTANTS
   BugNoMismatch = FALSE
   BugNoWitness = FALSE
   BugKeepForever = FALSE
-  StaleSv = TRUE
+  StaleSv = FALSE
 INVARIANTS AbsInv OwnVotesTrimmed
 PROPERTIES AbsStep
 CHECK_DEADLOCK FALSE
